@@ -101,6 +101,13 @@ def oracle(run):
             op = run.masters[pi].ops[k]
             rk, bk, rw, col = am.decode(op["addr"])
             key = classify_wait(cfg, run.stim, pi, k, rk * nb + bk, to, min(a_end, to + B + 50), backend=getattr(run, "backend", "fast"))
+            if key == "other":
+                # the crossbar does not let a port request a second bank while commands it has in another bank's queue are still waiting for
+                # their data phase (that is how data phases stay in command order): if earlier commands of this port were outstanding during
+                # the whole wait, the wait is a consequence of THEIR data latency, which is judged on its own below
+                w_end = min(a_end, to + B + 50)
+                if any(p2 == pi and k2 < k and ta2 is not None and ta2 <= to + 2 and (td2 is None or td2 >= w_end) for (p2, k2, to2, ta2, td2) in lat):
+                    key = "own_queue_full"
             fs.append(dict(clause="C05.accept_latency", key=key,
                            what="port %d op %d (%s rank %d bank %d) offered at cycle %d, %s after %d cycles > bound %d [%s]" % (
                                pi, k, "WR" if op["we"] else "RD", rk, bk, to, "accepted" if ta is not None else "still not accepted", wa, B, key)))
